@@ -6,7 +6,13 @@
 use libfuzzer_sys::fuzz_target;
 use p_pools::interp::{case_from_bytes, run_case};
 
+static HOOK: std::sync::Once = std::sync::Once::new();
+
 fuzz_target!(|data: &[u8]| {
+    // libfuzzer-sys aborts on every panic; panics the interpreter expects and catches (a pool
+    // with MustNotDropContents dropped non-empty) must not end the campaign. Real failures
+    // abort explicitly below.
+    HOOK.call_once(|| std::panic::set_hook(Box::new(|_| {})));
     let case = case_from_bytes(data);
     for prop in ["C01", "C02"] {
         let mut ctx = vcommon::Ctx::default();
